@@ -1279,6 +1279,10 @@ class _FuncEval:
         if fn == ("global", "getattr") and len(args) == 2 and not kwargs and args[1][0] == "const" \
                 and isinstance(args[1][1], str):
             return ("attr", args[0], args[1][1])  # getattr(x, 'name') is x.name
+        if fn == ("global", "getattr") and len(args) == 3 and not kwargs and args[1][0] == "const" \
+                and isinstance(args[1][1], str) and args[2] == NONE:
+            # getattr(x, 'name', None): the field, or None when it was never set - for the rules a read of x.name
+            return ("attr", args[0], args[1][1])
         if fn[0] == "ite":
             # a call through a conditionally chosen function is the conditional of the calls
             def assume(t, cond, pol):
@@ -1496,7 +1500,15 @@ def _inline(te: "TermEval", func: FuncInfo, depth: int, stack: tuple, stop) -> S
     # generator fusion: an effect inside `for x in <package generator>(...)` happens once per value the generator
     # yields - it is replaced by one copy per yield statement, with x := the yielded value and the yield's own loops and
     # conditions in place of the loop over the generator call
+    def unwrap(it):
+        # list(gen()) / tuple(gen()) / iter(gen()) iterate the same values in the same order
+        while it[0] == "call" and it[1] in (("global", "list"), ("global", "tuple"), ("global", "iter")) and \
+                len(it[2]) == 1 and not it[3]:
+            it = it[2][0]
+        return it
+
     def gen_of(it):
+        it = unwrap(it)
         tg = base.calls.get(it) or out.calls.get(it)
         if it[0] != "call" or not tg or len(tg) != 1 or it not in out.precise:
             return None
@@ -1520,16 +1532,24 @@ def _inline(te: "TermEval", func: FuncInfo, depth: int, stack: tuple, stop) -> S
                     nxt.append(x)
                     continue
                 i, c, g = hit
-                amap = te._bind_args(g, c[2])
+                amap = te._bind_args(g, unwrap(c[2]))
                 if amap is None:
                     nxt.append(x)
                     continue
                 gs = _inline(te, g, depth - 1, stack + (func,), stop)
                 el = ("elem", c[2], c[1])
-                if not gs.yields or any(yt[0] == "star" for _, yt, _, _ in gs.yields):
-                    nxt.append(x)   # `yield from` inside: the loop over the generator call is kept as it is
+                if not gs.yields:
+                    nxt.append(x)
                     continue
+                ylist = []
                 for ypc, yt, yn, yctx in gs.yields:
+                    if yt[0] == "star":
+                        # `yield from X`: one value per element of X
+                        lid2 = f"Y{next(te._ids)}"
+                        ylist.append((ypc, ("elem", yt[1], lid2), yn, tuple(yctx) + (("for", lid2, yt[1]),)))
+                    else:
+                        ylist.append((ypc, yt, yn, yctx))
+                for ypc, yt, yn, yctx in ylist:
                     val = substitute(yt, amap)
                     rep = lambda t, val=val: rebuild(t, lambda z: val if z == el else (  # noqa: E731
                         val[1][z[2][1]] if z[0] == "sub" and z[1] == el and z[2][0] == "const" and
@@ -1693,3 +1713,44 @@ def same_call(te: "TermEval", summ: Summary, c1, c2) -> bool:
         return False
     a1, a2 = te._bind_args(g, c1), te._bind_args(g, c2)
     return a1 is not None and a1 == a2
+
+
+def generator_sources(te: "TermEval", summ: Summary, t, depth: int = 2) -> list:
+    """For every call of a (precisely resolved) package generator inside `t`: the terms its values come from - the
+    yielded values and the iterables of the loops around the yields, instantiated with the call's arguments."""
+    out = []
+    if depth <= 0:
+        return out
+    for x in subterms(t):
+        if x[0] != "call" or x not in summ.precise:
+            continue
+        tg = summ.calls.get(x) or []
+        if len(tg) != 1 or not tg[0].is_generator():
+            continue
+        amap = te._bind_args(tg[0], x)
+        if amap is None:
+            continue
+        gs = te.inline(tg[0], 2)
+        for ypc, yt, yn, yctx in gs.yields:
+            v = substitute(yt[1] if yt[0] == "star" else yt, amap)
+            out.append(v)
+            for c in yctx:
+                if c[0] == "for" and isinstance(c[2], tuple):
+                    out.append(substitute(c[2], amap))
+            sub = Summary(tg[0])
+            sub.calls = {substitute(k, amap): vv for k, vv in gs.calls.items()}
+            sub.precise = {substitute(k, amap) for k in gs.precise}
+            out.extend(generator_sources(te, sub, v, depth - 1))
+    return out
+
+
+def first_of(t):
+    """If `t` is "the first element of X" (X[0], next(X), next(X, default), next(iter(X) ...)) return X, else None."""
+    if t[0] == "sub" and t[2] == ("const", 0):
+        return t[1]
+    if t[0] == "call" and t[1] == ("global", "next") and 1 <= len(t[2]) <= 2 and not t[3]:
+        x = t[2][0]
+        if x[0] == "call" and x[1] == ("global", "iter") and len(x[2]) == 1:
+            x = x[2][0]
+        return x
+    return None
